@@ -159,7 +159,9 @@ func memOffsets() (small []*big.Int, huge []*big.Int) {
 	}
 	huge = append(huge, new(big.Int).Sub(twoTo(64), big.NewInt(1)), new(big.Int).Sub(twoTo(64), big.NewInt(32)), twoTo(64),
 		new(big.Int).Add(twoTo(64), big.NewInt(5)), twoTo(255), new(big.Int).Sub(mod256, big.NewInt(1)),
-		big.NewInt(0x1FFFFFFFE1), twoTo(63), twoTo(40), new(big.Int).Sub(twoTo(64), big.NewInt(31)))
+		big.NewInt(0x1FFFFFFFE1), twoTo(63), twoTo(40), new(big.Int).Sub(twoTo(64), big.NewInt(31)),
+		big.NewInt(0x1FFFFFFFE0), big.NewInt(0x1FFFFFFFE0-31), big.NewInt(0x1FFFFFFFE0-32), twoTo(61), twoTo(62),
+		new(big.Int).Sub(twoTo(64), big.NewInt(33)), twoTo(32), new(big.Int).Sub(twoTo(32), big.NewInt(1)), twoTo(31))
 	return
 }
 
@@ -271,6 +273,113 @@ func (g *gen) line(p *prog, input []byte) string {
 	return runLine(g.cfg(), g.gas(), p.b, input)
 }
 
+// fullGas: enough for every deterministic family under every fork configuration
+func (g *gen) fullGas() uint64 {
+	if g.noGas {
+		return 300000000
+	}
+	return 30000000
+}
+
+// lineCfg: a program under a chosen fork configuration with ample gas
+func (g *gen) lineCfg(cfg int, p *prog) string {
+	p.link()
+	g.count(p.b)
+	return runLine(cfg, g.fullGas(), p.b, nil)
+}
+
+var smallVals = []int64{0, 1, 2, 31, 32, 33}
+
+// families: deterministic small-scope programs that run BEFORE everything random.
+//   - arity: every computational opcode with exactly delta and with delta-1 stack items
+//     (DUPn/SWAPn also with one more), operands small so that memory stays affordable;
+//   - stacklimit: every pushing opcode at depth 1022/1023/1024 (the 1024 limit);
+//   - all 8 fork configurations in turn.
+func (g *gen) families(emit func(stream, line string)) {
+	type od struct {
+		op    byte
+		delta int
+	}
+	var ops []od
+	for _, o := range binOps {
+		ops = append(ops, od{o, 2})
+	}
+	for _, o := range unOps {
+		ops = append(ops, od{o, 1})
+	}
+	for _, o := range terOps {
+		ops = append(ops, od{o, 3})
+	}
+	ops = append(ops, od{POP, 1}, od{MLOAD, 1}, od{MSTORE, 2}, od{MSTORE8, 2}, od{SHA3, 2}, od{CALLDATALOAD, 1},
+		od{CALLDATACOPY, 3}, od{CODECOPY, 3}, od{RETURNDATACOPY, 3}, od{MCOPY, 3}, od{JUMP, 1}, od{JUMPI, 2},
+		od{RETURN, 2}, od{REVERT, 2}, od{PC, 0}, od{MSIZE, 0}, od{PUSH0, 0}, od{JUMPDEST, 0}, od{CALLDATASIZE, 0},
+		od{CODESIZE, 0}, od{RETURNDATASIZE, 0}, od{STOP, 0})
+	n := 0
+	for _, o := range ops {
+		for depth := o.delta - 1; depth <= o.delta; depth++ {
+			if depth < 0 {
+				continue
+			}
+			p := &prog{}
+			for i := 0; i < depth; i++ {
+				p.pushU(uint64(smallVals[(n+i)%len(smallVals)]))
+			}
+			p.op(o.op)
+			k := 0
+			if depth == o.delta {
+				switch o.op {
+				case POP, MSTORE, MSTORE8, CALLDATACOPY, CODECOPY, RETURNDATACOPY, MCOPY, JUMP, JUMPI, RETURN, REVERT, JUMPDEST, STOP:
+				default:
+					k = 1 // the opcode leaves one result on an otherwise empty stack
+				}
+			}
+			p.dump(k, false)
+			stream := "arity"
+			switch o.op {
+			case JUMP, JUMPI, RETURNDATACOPY, MCOPY, PUSH0, REVERT:
+			default:
+				if depth == o.delta {
+					stream = "arity-ok" // must be accepted under every fork configuration
+				}
+			}
+			emit(stream, g.lineCfg(n%8, p))
+			n++
+		}
+	}
+	for k := 1; k <= 16; k++ {
+		for _, base := range []byte{DUP1, SWAP1} {
+			need := k
+			if base == SWAP1 {
+				need = k + 1
+			}
+			for depth := need - 1; depth <= need+1; depth++ {
+				p := &prog{}
+				for i := 0; i < depth; i++ {
+					p.pushU(uint64(0xd0 + i))
+				}
+				p.op(base + byte(k-1))
+				p.dump(min(depth+1, 18), false)
+				emit("arity", g.lineCfg(n%8, p))
+				n++
+			}
+		}
+	}
+	pushers := [][]byte{{PUSH0}, {PUSH1, 1}, {PUSH2, 1, 2}, {DUP1}, {0x8f}, {PC}, {MSIZE}, {CALLDATASIZE}, {CODESIZE},
+		{RETURNDATASIZE}, {SWAP1}, {0x9f}, {ADD}, {POP}, {JUMPDEST}, {MLOAD}, {ISZERO}}
+	for _, depth := range []int{1022, 1023, 1024} {
+		for _, ins := range pushers {
+			p := &prog{}
+			for i := 0; i < depth; i++ {
+				p.op(PC)
+			}
+			p.op(ins...)
+			p.dump(2, false)
+			emit("stacklimit", g.lineCfg(n%8, p))
+			n++
+		}
+	}
+}
+
 // single-opcode program: operands pushed so that `a` is on top.
 func (g *gen) opProgram(op byte, args ...*big.Int) *prog {
 	p := &prog{}
@@ -291,6 +400,8 @@ func (g *gen) all(emit func(stream, line string)) {
 	if g.thorough {
 		scale = 10
 	}
+	// 0. deterministic small-scope families first
+	g.families(emit)
 	// 1. operand lattice
 	for _, op := range binOps {
 		if g.thorough {
@@ -743,4 +854,45 @@ func (g *gen) randomCode() string {
 	}
 	g.count(code)
 	return runLine(g.cfg(), g.gas(), code, g.input())
+}
+
+// nested: an outer program that computes, STATICCALLs a second account holding a computational
+// program, then looks at the flag, the return data and its own memory (search mode only).
+func (g *gen) nested() string {
+	p := &prog{}
+	s := &sim{}
+	for i := 0; i < 1+g.r.Intn(6); i++ {
+		g.instr(p, s, g.r.Chance(1, 2))
+	}
+	// retSize retOff inSize inOff addr gas
+	p.push(big.NewInt(int64(g.r.Pick(0, 1, 31, 32, 33, 64, 100))))
+	p.push(g.small[g.r.Intn(len(g.small)-4)])
+	p.push(big.NewInt(int64(g.r.Pick(0, 1, 32, 33, 64, 96))))
+	p.push(g.small[g.r.Intn(len(g.small)-4)])
+	p.op(0x73)
+	p.op(calleeAddr.Bytes()...)
+	p.op(0x63, 0x0f, 0xff, 0xff, 0xff, 0xfa)
+	s.depth++
+	p.op(RETURNDATASIZE)
+	s.depth++
+	if g.r.Chance(2, 3) {
+		p.pushU(uint64(g.r.Pick(0, 1, 32, 64)))
+		p.pushU(uint64(g.r.Pick(0, 0, 1, 32)))
+		p.pushU(uint64(g.r.Pick(0, 64, 128, 200)))
+		p.op(RETURNDATACOPY)
+	}
+	for i := 0; i < g.r.Intn(5); i++ {
+		g.instr(p, s, true)
+	}
+	p.dump(min(s.depth, 4), false)
+	p.link()
+	var q *prog
+	var in []byte
+	if g.r.Chance(1, 2) {
+		q, in = g.straight()
+	} else {
+		q, in = g.memory()
+	}
+	q.link()
+	return fmt.Sprintf("run2 %d %d %s %s %s", g.cfg(), g.gas(), hx.Hex(p.b), hx.Hex(q.b), hx.Hex(in))
 }
